@@ -117,9 +117,19 @@ func C06(c *Ctx) {
 				r.Bad("C06.revoke", hn, "DelRememberTokens", "-", "handler does not delete the account's remember tokens")
 			}
 			for _, d := range dels {
-				pidOK := HasOrigin(c.Origins(Arg(d, 1)), func(o Origin) bool {
+				// the subject is the user the firing handler put into the request
+				// (CurrentUser prefers it); the browser's own session identity
+				// (CurrentUserID, GetSession) is a different account in general
+				isCtxUser := func(o Origin) bool {
 					return o.Kind == "call" && (strings.HasPrefix(o.Name, fnCurrentUser+"#") || strings.HasPrefix(o.Name, fnCurrentUserP+"#"))
-				})
+				}
+				pidOrigins := c.Origins(Arg(d, 1))
+				pidOK := HasOrigin(pidOrigins, isCtxUser)
+				for _, o := range pidOrigins {
+					if o.Kind == "call" && !isCtxUser(o) {
+						pidOK = false
+					}
+				}
 				r.Check(pidOK, "C06.revoke", hn, "DelRememberTokens.pid", posf(c, d), "deletes the tokens of the context user's PID", "PID passed to DelRememberTokens is not the context user's (origins: "+names(c.Origins(Arg(d, 1)))+")")
 				k, _ := c.errHandling(d)
 				okE := k == "returned" || k == "tested"
